@@ -34,6 +34,16 @@ def one(req):
         row = []
         generate(row)
         out.append(row)
+    # declared AFTER seeding: declaring a schema draws nothing
+    Random().set_seed(seed)
+    redeclared = [gen.build(src) for src in req["schemas"]] + [gen.build("schema.str.regex('[a-c]{2}x|\\d+')"), gen.build("schema.str.regex('(a)\\1')")]
+    row = []
+    for s in redeclared[:len(schemas)]:
+        try:
+            row.append(canon(fake(s)))
+        except Exception as e:  # noqa
+            row.append("raise:" + type(e).__name__)
+    out.append(row)
     if req.get("thread"):
         # seeded here, generated in a worker thread of the same process
         import threading
